@@ -7,7 +7,7 @@ let nbig s = n_of_string s
 let split_list (s : string) : string list = if s = "." then [] else String.split_on_char ',' s
 (* script: comma separated datagrams, "-" = lost, "." = empty script *)
 let script_of (s : string) : n list option list =
-  List.map (fun x -> if x = "-" then None else Some (bytes_of_hex x)) (split_list s)
+  List.map (fun x -> if x = "-" then None else if x = "e" then Some [] else Some (bytes_of_hex x)) (split_list s)
 let hexlist (l : n list list) : string = if l = [] then "." else String.concat "," (List.map hex_of_bytes l)
 let nlist (l : n list) : string = if l = [] then "." else String.concat "," (List.map (fun x -> string_of_int (int_of_n x)) l)
 
